@@ -1208,6 +1208,12 @@ func (c *SpecCtx) call(e *Expr, pos bool) *Term {
 			}
 		}
 		c.fail("startTrace(%s): loop not active", e.Args[0].Name)
+	case "ownPanic":
+		// in a `panics` clause: the value was raised by a panic statement of this very function
+		if t, ok := c.vars["$ownPanic"]; ok {
+			return t
+		}
+		c.fail("ownPanic() outside a panics clause")
 	case "exhausted":
 		// in a `loop N exit` clause: the loop is left through its own condition (not through a break)
 		if t, ok := c.vars["$exhausted"]; ok {
